@@ -62,6 +62,7 @@ package corebgp
 //@   requires [reader_channels] readerRunning(f) ==> f.closeReaderCh != nil && f.readerDoneCh != nil
 //@   requires [once] f.closeReaderCh != nil ==> f.readerDoneCh != nil && (chanClosed(f.closeReaderCh) == onceDone(f.closeReaderOnce))
 //@   modifies f.conn, connClosed(f.conn), readerRunning(f), chanClosed(f.closeReaderCh), onceDone(f.closeReaderOnce)
+//@   at recv readerDoneCh#0 after assert [reader_is_joined_only_after_its_connection_was_closed] old(f.conn) == nil || connClosed(old(f.conn))
 //@   ensures [conn_closed] old(f.conn) != nil ==> connClosed(old(f.conn))
 //@   ensures [conn_cleared] f.conn == nil
 //@   ensures [reader_joined] !readerRunning(f)
@@ -145,6 +146,9 @@ package corebgp
 //@   requires [self] fsmSelf(f) && dialPending(f) && f.dialResultCh != nil && f.cancelDialFn != nil && f.connectRetryTimer != nil && !readerRunning(f)
 //@   ghostvar redials int = 0
 //@   at select#0 case 2 assert [waits_on_the_current_retry_timer] selchan == f.connectRetryTimer.C
+//@   ghostvar got int = 0
+//@   at recv dialResultCh#0 after set got = (result != nil ? result.conn.val : 0)
+//@   loop#0 invariant [a_connection_that_a_dial_delivered_is_never_dropped] got == 0 || connClosed(got)
 //@   at call cancelDialFn#0 assert [cancels_the_pending_dial] funcval == f.cancelDialFn
 //@   at call cancelDialFn#1 assert [cancels_the_pending_dial] funcval == f.cancelDialFn
 //@   at call cancelDialFn#2 assert [cancels_the_pending_dial] funcval == f.cancelDialFn
@@ -458,6 +462,7 @@ package corebgp
 //@   requires [self] fsmSelf(f) && readerFields(f) && (f.cancelDialFn != nil ==> f.dialResultCh != nil)
 //@   loop#0 invariant [stopped_so_far] -1 <= rangeindex && rangeindex <= 3 && f.conn == nil && !readerRunning(f) && (old(f.cancelDialFn) != nil ==> !dialPending(f)) && (old(f.conn) != nil ==> connClosed(old(f.conn))) && (rangeindex >= 0 && f.connectRetryTimer != nil ==> !timerOn(f.connectRetryTimer)) && (rangeindex >= 1 && f.holdTimer != nil ==> !timerOn(f.holdTimer)) && (rangeindex >= 2 && f.keepAliveTimer != nil ==> !timerOn(f.keepAliveTimer)) && (rangeindex >= 3 ==> !timerOn(f.idleHoldTimer))
 //@   modifies f.conn, connClosed, readerRunning(f), dialPending(f), chanClosed(f.closeReaderCh), onceDone(f.closeReaderOnce), timerOn, timerMayHold, timerEpoch
+//@   at recv readerDoneCh#0 after assert [reader_is_joined_only_after_its_connection_was_closed] old(f.conn) == nil || connClosed(old(f.conn))
 //@   ensures [conn_closed] old(f.conn) != nil ==> connClosed(old(f.conn))
 //@   ensures [conn_cleared] f.conn == nil
 //@   ensures [reader_joined] !readerRunning(f)
